@@ -16,6 +16,9 @@ pub fn features<S: Scheme>(ctx: &mut Ctx, tx: &Tx<S>, q: Option<&Queries<S>>) {
         if s.shape == Shape::Const {
             ctx.count("feature:constant-polynomial", 1);
         }
+        if s.bound == Some(0) {
+            ctx.count("feature:degree-bound-zero", 1);
+        }
         match (s.bound.is_some(), s.hiding.is_some()) {
             (true, true) => ctx.count("feature:bound+hiding", 1),
             (true, false) => ctx.count("feature:bound-only", 1),
@@ -101,6 +104,7 @@ fn case<S: Scheme>(ctx: &mut Ctx, rng: &mut ChaCha20Rng) {
 }
 
 pub fn run(ctx: &mut Ctx) {
+    crate::schemes::SPECIAL_POINTS.store(true, std::sync::atomic::Ordering::Relaxed);
     for_each_scheme!(ctx, S, {
         let n = ctx.n(160, 3000) / <S as Scheme>::WEIGHT.max(1);
         ctx.run_cases(<S as Scheme>::NAME, n.max(4), |ctx, _i, rng| case::<S>(ctx, rng));
